@@ -14,6 +14,7 @@ import (
 	"strings"
 	"sync"
 	"time"
+	"unsafe"
 
 	mcnet "github.com/Tnze/go-mc/net"
 	"github.com/Tnze/go-mc/net/CFB8"
@@ -556,6 +557,284 @@ func connPair(o *hx.Out, r *hx.Rng, thr int, both bool) (ok bool) {
 	return !failed
 }
 
+
+// ---------------------------------------------------------------- memory-image cases (kind `mem`):
+// the implementation against the INTERPRETED TRANSLATION of cfb8.go (Model/C10_interp.v), with dst and src
+// as windows of one backing array at any offset from each other (in place, disjoint, PARTIAL overlap),
+// block sizes 8 / 16 / 32, and a toy cipher.Block that can refuse inexactly overlapping blocks the way
+// crypto/aes does.
+
+type toyBlockN struct {
+	k      byte
+	n      int
+	strict bool
+}
+
+func (t toyBlockN) BlockSize() int { return t.n }
+func (t toyBlockN) Encrypt(dst, src []byte) {
+	if len(src) < t.n {
+		panic("toy: input not full block")
+	}
+	if len(dst) < t.n {
+		panic("toy: output not full block")
+	}
+	if t.strict && &dst[0] != &src[0] {
+		d, s := uintptr(unsafe.Pointer(&dst[0])), uintptr(unsafe.Pointer(&src[0]))
+		if d < s+uintptr(t.n) && s < d+uintptr(t.n) {
+			panic("toy: invalid buffer overlap")
+		}
+	}
+	s := t.k
+	for j := 0; j < t.n; j++ {
+		s = s*5 + src[j] + 1
+	}
+	tmp := make([]byte, t.n)
+	for i := 0; i < t.n; i++ {
+		tmp[i] = (s + 17*byte(i)) ^ src[(i+1)%t.n]
+	}
+	copy(dst[:t.n], tmp)
+}
+func (toyBlockN) Decrypt(dst, src []byte) { panic("toy: Decrypt is never used by CFB") }
+
+// CFB with 8-bit segments over a block function of any block size n (SP 800-38A 6.3, s = 8, b = 8n)
+func refCFBn(b cipher.Block, iv []byte, de bool, in []byte) []byte {
+	n := b.BlockSize()
+	reg := append([]byte(nil), iv...)
+	out := make([]byte, len(in))
+	o := make([]byte, n)
+	for i, x := range in {
+		b.Encrypt(o, reg)
+		y := x ^ o[0]
+		out[i] = y
+		c := y
+		if de {
+			c = x
+		}
+		copy(reg, reg[1:])
+		reg[n-1] = c
+	}
+	return out
+}
+
+type mcall struct {
+	img                    []byte
+	doff, dlen, soff, slen int
+	class                  string
+}
+
+// genMcall: one call of source length n with the given relation between dst and src
+func genMcall(r *hx.Rng, n, bs int, class string) mcall {
+	c := mcall{slen: n, dlen: n, class: class}
+	pad := r.Intn(4)
+	switch class {
+	case "inplace":
+		c.doff, c.soff = pad, pad
+		c.dlen = n + r.Pick(0, 0, 0, 1, 5)
+	case "dst-first": // dst entirely before src
+		c.dlen = n + r.Pick(0, 0, 1, 7)
+		c.doff = pad
+		c.soff = pad + c.dlen + r.Pick(0, 0, 1, bs-1, bs, 3*bs)
+	case "src-first":
+		c.dlen = n + r.Pick(0, 0, 1, 7)
+		c.soff = pad
+		c.doff = pad + n + r.Pick(0, 0, 1, bs-1, bs, 3*bs)
+	case "short":
+		c.dlen = r.Intn(n + 1)
+		if c.dlen == n {
+			c.dlen = n / 2
+		}
+		c.doff, c.soff = pad, pad+n+2
+	case "ahead-small": // dst starts 1..bs-1 bytes before src: slow path, reads stay ahead of writes
+		c.doff = pad
+		c.soff = pad + 1 + r.Intn(bs-1)
+	case "ahead-block": // dst starts >= bs before src and still overlaps it: fast path (batched when decrypting)
+		c.doff = pad
+		hi := n - 1
+		if hi < bs {
+			hi = bs
+		}
+		c.soff = pad + bs + r.Intn(hi-bs+1)
+	case "ahead-tail": // the offsets for which the batched branch's XORBytes operands do not overlap
+		c.doff = pad
+		m := n - bs // length after the first block
+		lo := m - bs
+		if lo < bs {
+			lo = bs
+		}
+		hi := m - 1
+		if hi < lo {
+			hi = lo
+		}
+		c.soff = pad + lo + r.Intn(hi-lo+1)
+	case "behind": // src starts before dst and overlaps it: slow path, writes run ahead of reads
+		c.soff = pad
+		c.doff = pad + 1 + r.Intn(n)
+	}
+	end := c.doff + c.dlen
+	if e := c.soff + c.slen; e > end {
+		end = e
+	}
+	c.img = r.Bytes(end + r.Intn(3))
+	return c
+}
+
+// unspecified: the call reaches subtle.XORBytes(dst, src[:i], dst) with src[:i] overlapping dst inexactly;
+// what the assembly implementations of crypto/subtle store then depends on the architecture (Go >= 1.24
+// panics). Computed from the layout alone: decrypting, dst starts delta bytes before src, fast path with
+// the batched branch (bs <= delta <= m-1, m = len(src)-bs), first loop count i = m-bs > delta.
+func (c mcall) unspecified(de bool, bs int) bool {
+	delta := c.soff - c.doff
+	m := c.slen - bs
+	return de && c.dlen >= c.slen && c.slen > 2*bs && delta >= bs && delta < m-bs
+}
+
+func memSeq(o *hx.Out, cat string, de bool, k byte, strict bool, bs int, iv []byte, calls []mcall) {
+	b := toyBlockN{k, bs, strict}
+	var sb, ib strings.Builder
+	d, st := 0, 0
+	if de {
+		d = 1
+	}
+	if strict {
+		st = 1
+	}
+	fmt.Fprintf(&sb, "mem %d %d %d %d %s", d, k, st, bs, hx.Hex(iv))
+	ib.WriteString("mem")
+	var s *CFB8.CFB8
+	if p := hx.Try(func() { s = newStream(b, iv, de) }); p != "" {
+		ib.WriteString(" panic")
+		calls = nil
+	}
+	contract := len(iv) == bs
+	var in, got []byte
+	for ci, c := range calls {
+		fmt.Fprintf(&sb, " %s %d %d %d %d", hx.Hex(c.img), c.doff, c.dlen, c.soff, c.slen)
+		if s == nil {
+			continue
+		}
+		back := append([]byte(nil), c.img...)
+		dst := back[c.doff : c.doff+c.dlen : c.doff+c.dlen]
+		src := back[c.soff : c.soff+c.slen : c.soff+c.slen]
+		srcCopy := append([]byte(nil), src...)
+		p := hx.Try(func() { s.XORKeyStream(dst, src) })
+		permitted := c.class == "inplace" || c.class == "dst-first" || c.class == "src-first"
+		if p != "" {
+			ib.WriteString(" panic")
+			if permitted && contract {
+				o.Fail("C10.mem.panic", "bs=%d de=%v strict=%v call=%d class=%s len=%d: %s", bs, de, strict, ci, c.class, c.slen, p)
+			}
+			s = nil
+			continue
+		}
+		if c.class == "short" && c.slen > 0 {
+			o.Fail("C10.short-dst-accepted", "mem bs=%d call=%d: dst shorter than src did not panic", bs, ci)
+		}
+		if c.unspecified(de, bs) {
+			ib.WriteString(" unspec")
+			s = nil
+			continue
+		}
+		ivb, pos := s.VerifState()
+		fmt.Fprintf(&ib, " %s:%s:%d", hx.Hex(back), hx.Hex(ivb), pos)
+		if !permitted {
+			contract = false // after a call outside the cipher.Stream contract nothing is claimed
+		}
+		if contract {
+			in = append(in, srcCopy...)
+			got = append(got, dst[:c.slen]...)
+			// nothing outside dst[:len(src)] may change
+			for j := range back {
+				if (j < c.doff || j >= c.doff+c.slen) && back[j] != c.img[j] {
+					o.Fail("C10.mem.stray-write", "bs=%d de=%v call=%d class=%s len=%d: byte %d outside dst[:len(src)] changed", bs, de, ci, c.class, c.slen, j)
+					break
+				}
+			}
+		}
+	}
+	o.Case(cat, len(calls) >= 2, sb.String(), ib.String())
+	if len(iv) == bs && len(in) > 0 {
+		if want := refCFBn(b, iv, de, in); !bytes.Equal(got, want) {
+			o.Fail(fmt.Sprintf("C10.stream.bs%d", bs), "de=%v strict=%v calls=%d: the permitted calls do not produce the CFB8 image", de, strict, len(calls))
+		}
+	}
+}
+
+func memCases(o *hx.Out, r *hx.Rng) {
+	// the two witnesses of Proofs/C10_ext.v (wit_batched, wit_behind): same data, on the implementation
+	witIv := make([]byte, 16)
+	for i := range witIv {
+		witIv[i] = byte(i + 1)
+	}
+	witImg := func(n int) []byte {
+		b := make([]byte, n)
+		for j := range b {
+			b[j] = byte(j*7 + 3)
+		}
+		return b
+	}
+	memSeq(o, "toy.mem.partial", true, 7, false, 16, witIv, []mcall{{img: witImg(70), doff: 0, dlen: 50, soff: 20, slen: 50, class: "ahead-tail"}})
+	memSeq(o, "toy.mem.partial", true, 7, false, 16, witIv, []mcall{{img: witImg(25), doff: 5, dlen: 20, soff: 0, slen: 20, class: "behind"}})
+	memSeq(o, "toy.mem.partial", false, 7, false, 16, witIv, []mcall{{img: witImg(25), doff: 5, dlen: 20, soff: 0, slen: 20, class: "behind"}})
+	permitted := []string{"inplace", "dst-first", "src-first"}
+	partial := []string{"ahead-small", "ahead-block", "ahead-tail", "behind"}
+	lens := func(bs int) int {
+		switch r.Intn(8) {
+		case 0:
+			return r.Intn(3)
+		case 1:
+			return bs - 1 + r.Intn(3)
+		case 2, 3:
+			return 2*bs - 1 + r.Intn(4)
+		case 4:
+			return 3*bs - 1 + r.Intn(3)
+		case 5:
+			return 4*bs + r.Intn(2*bs)
+		}
+		return r.Intn(7 * bs)
+	}
+	// systematic: ring position x second-call length x permitted class x direction, block sizes 8 and 16
+	for _, bs := range []int{8, 16} {
+		for p := 0; p <= 2*bs+1; p += 1 + r.Intn(2) {
+			for _, l2 := range []int{1, bs, 2 * bs, 2*bs + 1, 2*bs + 2, 3*bs + 1, 5 * bs} {
+				cl := permitted[r.Intn(3)]
+				c1 := genMcall(r, p, bs, "inplace")
+				c2 := genMcall(r, l2, bs, cl)
+				c3 := genMcall(r, 2*bs+2, bs, "inplace")
+				memSeq(o, fmt.Sprintf("toy.mem.bs%d", bs), r.Bool(), byte(r.Next()), r.Intn(4) == 0, bs, r.Bytes(bs), []mcall{c1, c2, c3})
+			}
+		}
+	}
+	// random histories of permitted calls, block sizes 8, 16, 32
+	for i := 0; i < o.N(260, 10); i++ {
+		bs := r.Pick(8, 8, 16, 16, 32)
+		var calls []mcall
+		for j, n := 0, 1+r.Intn(5); j < n; j++ {
+			cl := permitted[r.Intn(3)]
+			if r.Intn(25) == 0 {
+				cl = "short"
+			}
+			calls = append(calls, genMcall(r, lens(bs), bs, cl))
+		}
+		iv := r.Bytes(bs)
+		if r.Intn(12) == 0 {
+			iv = r.Bytes(r.Pick(0, 1, bs-1, bs+1, 2*bs))
+		}
+		memSeq(o, fmt.Sprintf("toy.mem.bs%d", bs), r.Bool(), byte(r.Next()), r.Intn(4) == 0, bs, iv, calls)
+	}
+	// partial overlap (outside the cipher.Stream contract): correspondence only
+	for i := 0; i < o.N(260, 10); i++ {
+		bs := r.Pick(8, 16, 16)
+		n := 2*bs + 1 + r.Intn(5*bs)
+		if r.Intn(5) == 0 {
+			n = 1 + r.Intn(2*bs)
+		}
+		c0 := genMcall(r, r.Intn(2*bs+2), bs, "inplace")
+		c1 := genMcall(r, n, bs, partial[r.Intn(len(partial))])
+		c2 := genMcall(r, 2*bs+2, bs, "inplace")
+		memSeq(o, "toy.mem.partial", r.Intn(3) > 0, byte(r.Next()), r.Intn(3) == 0, bs, r.Bytes(bs), []mcall{c0, c1, c2})
+	}
+}
+
 // ---------------------------------------------------------------- main
 
 func main() {
@@ -684,5 +963,6 @@ func main() {
 			break
 		}
 	}
-	o.Note("partially overlapping dst/src (excluded by the cipher.Stream contract) is not generated")
+	memCases(o, r)
+	o.Note("partially overlapping dst/src (excluded by the cipher.Stream contract): generated for the model-vs-implementation comparison only (kind mem), no predicate")
 }
